@@ -471,7 +471,156 @@ pub fn case() -> BoxedStrategy<Case> {
         .boxed()
 }
 
+// ---------------------------------------------- forwarded messages with caller ids
+
+#[derive(Debug, Clone, Serialize, Deserialize, Hash, PartialEq, Eq)]
+pub struct Forward {
+    pub k: u8,
+    /// ids of the prebuilt messages forwarded while the K calls are in flight
+    pub forward_ids: Vec<u16>,
+    pub order_seed: u64,
+}
+
+/// `AsyncClient::forward_message` sends a prebuilt message under its own id. An
+/// id that collides with a request already in flight must be refused (two requests
+/// with one id on one connection cannot be told apart) and must not disturb the
+/// call that owns the id; everything else multiplexes as usual.
+pub fn check_forward(c: &Forward) -> CheckResult {
+    use repe::message::Message;
+    let k = c.k as usize;
+    let out: Result<bool, Fail> = block_on(async {
+        let (listener, addr) = listen().await.map_err(|e| Fail::new("harness-listen", e.to_string()))?;
+        let client = AsyncClient::connect(addr).await.map_err(|e| Fail::new("harness-connect", e.to_string()))?;
+        let mut io = accept_tcp(&listener).await.map_err(|e| Fail::new("harness-accept", e.to_string()))?;
+        let mut calls = Vec::new();
+        for i in 0..k {
+            let cl = client.clone();
+            calls.push(tokio::spawn(async move {
+                cl.call_json_with_timeout(format!("/c/{i}"), &json!({"k": i}), call_timeout()).await.map_err(|e| e.to_string())
+            }));
+        }
+        // the peer collects the K requests first, so their ids are all in flight
+        let mut frames = Vec::new();
+        for _ in 0..k {
+            match tokio::time::timeout(call_timeout(), io.recv()).await {
+                Ok(Ok(Some(f))) => frames.push(f),
+                _ => return Err(Fail::new("peer-script", "requests did not arrive")),
+            }
+        }
+        let inflight: HashSet<u64> = frames.iter().map(|f| f.header.id).collect();
+        // forwards: sequentially issued; a colliding id must be refused at once
+        let mut fwd_handles = Vec::new();
+        let mut used: HashSet<u64> = inflight.clone();
+        let mut collided = false;
+        for (n, fid) in c.forward_ids.iter().enumerate() {
+            let id = *fid as u64;
+            let msg = Message::builder()
+                .id(id)
+                .query_str(&format!("/c/{}", 500 + n))
+                .query_format(repe::QueryFormat::JsonPointer)
+                .body_json(&json!({"f": n}))
+                .unwrap()
+                .build();
+            if used.contains(&id) {
+                collided = true;
+                let r = tokio::time::timeout(call_timeout(), client.forward_message_with_timeout(&msg, call_timeout())).await;
+                match r {
+                    Ok(Err(_)) => {}
+                    Ok(Ok(_)) => {
+                        return Err(Fail::new(
+                            "duplicate-id-accepted",
+                            format!("forward_message with id {id}, already in flight on this connection, was accepted"),
+                        ));
+                    }
+                    Err(_) => return Err(Fail::new("call-failed", "a colliding forward neither failed nor returned")),
+                }
+            } else {
+                used.insert(id);
+                let cl = client.clone();
+                fwd_handles.push((
+                    500 + n,
+                    id,
+                    tokio::spawn(async move { cl.forward_message_with_timeout(&msg, call_timeout()).await.map_err(|e| e.to_string()) }),
+                ));
+                // wait until it has reached the peer: it is then certainly registered
+                // as in flight before any later (possibly colliding) forward is issued
+                match tokio::time::timeout(call_timeout(), io.recv()).await {
+                    Ok(Ok(Some(f))) => frames.push(f),
+                    _ => return Err(Fail::new("peer-script", "forwarded request did not arrive")),
+                }
+            }
+        }
+        let ids: Vec<u64> = frames.iter().map(|f| f.header.id).collect();
+        let distinct: HashSet<u64> = ids.iter().copied().collect();
+        ensure!(distinct.len() == ids.len(), "duplicate-request-ids", "ids on the wire are not distinct: {ids:?}");
+        // answer everything in a shuffled order
+        let mut order: Vec<usize> = (0..frames.len()).collect();
+        let mut x = c.order_seed | 1;
+        for i in (1..order.len()).rev() {
+            x ^= x << 13;
+            x ^= x >> 7;
+            x ^= x << 17;
+            order.swap(i, (x % (i as u64 + 1)) as usize);
+        }
+        for i in order {
+            let f = &frames[i];
+            let kk: u64 = f.path().strip_prefix("/c/").and_then(|s| s.parse().ok()).unwrap_or(u64::MAX);
+            let body = serde_json::to_vec(&json!({"k": kk})).unwrap();
+            io.send(&response_frame(f, 0, 2, &body)).await.map_err(|e| Fail::new("peer-script", e.to_string()))?;
+        }
+        for (i, h) in calls.into_iter().enumerate() {
+            match h.await {
+                Ok(Ok(v)) => ensure!(
+                    v.get("k").and_then(Value::as_u64) == Some(i as u64),
+                    "wrong-response",
+                    "call {i} returned {v}"
+                ),
+                Ok(Err(e)) => {
+                    return Err(Fail::new(
+                        "call-failed",
+                        format!("in-flight call {i} lost its response ({e}) after forwards with ids {:?} (in flight {inflight:?})", c.forward_ids),
+                    ));
+                }
+                Err(_) => return Err(Fail::new("panic", "caller panicked")),
+            }
+        }
+        for (kk, id, h) in fwd_handles {
+            match h.await {
+                Ok(Ok(Some(m))) => {
+                    let v: Value = serde_json::from_slice(&m.body).unwrap_or(Value::Null);
+                    ensure!(
+                        m.header.id == id && v.get("k").and_then(Value::as_u64) == Some(kk as u64),
+                        "wrong-response",
+                        "forward {kk} (id {id}) returned id {} body {v}",
+                        m.header.id
+                    );
+                }
+                Ok(Ok(None)) => return Err(Fail::new("call-failed", "forward returned None for a request")),
+                Ok(Err(e)) => return Err(Fail::new("call-failed", format!("forward {kk} (id {id}) failed: {e}"))),
+                Err(_) => return Err(Fail::new("panic", "forward panicked")),
+            }
+        }
+        io.close().await;
+        Ok(collided)
+    });
+    let collided = out?;
+    Ok(CaseInfo::new(collided || !c.forward_ids.is_empty())
+        .class(if collided { "id-collision" } else { "no-collision" })
+        .class("forward"))
+}
+
+fn forward_case() -> BoxedStrategy<Forward> {
+    (1u8..8, prop::collection::vec(prop_oneof![2 => 1u16..10, 1 => 1000u16..1010], 0..6), any::<u64>())
+        .prop_map(|(k, forward_ids, order_seed)| Forward {
+            k,
+            forward_ids,
+            order_seed,
+        })
+        .boxed()
+}
+
 pub fn run(ctx: &Ctx, rep: &Report) {
+    run_prop(ctx, rep, "forward", ctx.tier.pick(600, 12_000), &|| forward_case(), &check_forward);
     let ex = exhaustive_cases(ctx.tier.pick(5, 6));
     run_enum(ctx, rep, "permutations", &ex, true, &check);
     run_prop(ctx, rep, "random", ctx.tier.pick(900, 30_000), &|| case(), &check);
@@ -480,6 +629,7 @@ pub fn run(ctx: &Ctx, rep: &Report) {
 pub fn replay(sub: &str, case: &serde_json::Value) -> Result<(), Fail> {
     match sub {
         "permutations" | "random" => replay_case::<Case>(case, &check),
+        "forward" => replay_case::<Forward>(case, &check_forward),
         _ => Err(Fail::new("replay-unknown-sub", sub.to_string())),
     }
 }
